@@ -196,8 +196,10 @@ class Group:
     def _register(self, gateway: Gateway) -> None:
         assert not hasattr(gateway, "_group")
         assert gateway.id
-        assert gateway.id not in self
-        self._gateways.append(gateway)
+        # check-then-append must be atomic with respect to concurrent makegateway calls
+        with self._autoidlock:
+            assert gateway.id not in self
+            self._gateways.append(gateway)
         gateway._group = self
 
     def _unregister(self, gateway: Gateway) -> None:
